@@ -685,6 +685,12 @@ def coverage(ctx: Ctx, recs):
                      ("negative" if float.fromhex(p["start"]) < 0 else "positive"))
             for nm in model_names(it):
                 ctx.dist("model_in_exposure", nm)
+            for m in p["models"]:
+                if "time_scale" in m:
+                    ctx.dist("time_scale", float.fromhex(m["time_scale"]))
+            for m, a in zip(p["models"], rec["results"][0].get("aux") or []):
+                if m["m"] == "dark_current" and it.get("dy", True):
+                    ctx.dist("dark_current_rate_dyadic", all(is_small_dyadic(fr(v)) for v in a.get("rate", [])))
             ctx.dist("n_rate_models", sum(1 for m in p["models"] if m["m"] not in
                                           ("simple_collection", "simple_conversion", "qe_map")))
             if t == "exp":
@@ -714,13 +720,13 @@ def run(ctx: Ctx):
     r = ctx.rng("cases")
     q = ctx.quick
     items = []
-    items += call_items(ctx, r, 4 if q else 14, True)
-    items += call_items(ctx, ctx.rng("calls-nd"), 2 if q else 6, False)
+    items += call_items(ctx, r, 6 if q else 30, True)
+    items += call_items(ctx, ctx.rng("calls-nd"), 3 if q else 12, False)
     singles_and_full = [[k] for k in RATE_MODELS] + [list(RATE_MODELS)]
     subsets = singles_and_full if q else all_subsets()
     r.shuffle(subsets)
-    items += exposure_items(ctx, r, 34 if q else 150, 22 if q else 90, 16 if q else 70, True, subsets)
-    items += exposure_items(ctx, ctx.rng("exp-nd"), 10 if q else 40, 6 if q else 24, 6 if q else 24, False)
+    items += exposure_items(ctx, r, 50 if q else 400, 32 if q else 240, 24 if q else 200, True, subsets)
+    items += exposure_items(ctx, ctx.rng("exp-nd"), 12 if q else 80, 8 if q else 50, 8 if q else 50, False)
     items += refused_items(r)
     recs = evaluate(ctx, items)
     seen = coverage(ctx, recs)
@@ -733,6 +739,11 @@ def run(ctx: Ctx):
     for rec in [x for x in recs if x["item"]["type"] == "pair"][:2] + [x for x in recs if x["item"]["type"] == "inc"][:1]:
         ctx.sample(dict(what=describe(rec), mismatch=rec["mismatch"], violation=rec["violation"]))
     collect(ctx, recs)
+    if not q:
+        ok, out = core.coqchk(ctx, "PyxelGen.C17_prop")
+        ctx.cov["coqchk"] = "ok" if ok else "FAILED"
+        if not ok:
+            ctx.broken.append(Broken("theorem", "coqchk of Properties/C17.v", core.tail(out, 20)))
     if ctx.broken and not new_violations(ctx):
         search(ctx)
 
